@@ -219,7 +219,11 @@ class ffunc_count(ffunc):
         if self.weights is None:
             return (counts,)
         else:
-            vcount = numpy.sum(self.validity, axis=0)
+            if self.validity.shape:
+                vcount = numpy.sum(self.validity, axis=0)
+            else:
+                # Scalar weight: all N rows share its validity.
+                vcount = N if self.validity else 0
             valid_counts = numpy.zeros(cube.working_shape, dtype=int)
             valid_counts[cube.corner] = vcount
             if self.ignore_missing:
@@ -227,7 +231,7 @@ class ffunc_count(ffunc):
             else:
                 missing_counts = numpy.zeros(cube.working_shape, dtype=int)
                 missing_counts[cube.corner] = (
-                    len(self.validity) if self.validity.shape else 1
+                    len(self.validity) if self.validity.shape else N
                 ) - vcount
                 return counts, valid_counts, missing_counts
 
